@@ -282,3 +282,206 @@ Proof.
     + destruct Hfit as [B C]. split; [exact B|].
       apply IH; auto; intros x Hx; apply Hf; rewrite Hl; exact Hx.
 Qed.
+
+(* ---------------------------------------------------------------------------------------------- the loop *)
+Notation std := std_tables.
+
+(* what is established for every nested struct with at least one field, placed at an aligned base *)
+Definition lay_inv (a : arch) (t : ty) : Prop :=
+  forall rp base, (alignof std a t | base) ->
+    let L := lay std a t rp base in
+    tiles L base (base + sizeof std a t)
+    /\ L <> [] /\ (sizeof std a t <> 0 -> e_size (last L dummy) <> 0)
+    /\ Forall (leaf_wf (alignof std a t)) L
+    /\ rfits L base (base + sizeof std a t)
+    /\ Forall2 leaf_rel (nonpad L) (gc_leaves (fst a) (snd a) t rp base)
+    /\ first_at L base
+    /\ Forall (path_ok rp) L.
+
+Lemma leaf_wf_weaken A A' l : (A | A') -> Forall (leaf_wf A) l -> Forall (leaf_wf A') l.
+Proof.
+  intros HA H. eapply Forall_impl; [|exact H]. intros e He Hp. destruct (He Hp) as (B & C & D & E).
+  repeat split; auto. eapply Z.divide_trans; eauto.
+Qed.
+Lemma path_ok_cons i rp l : Forall (path_ok (i :: rp)) l -> Forall (path_ok rp) l.
+Proof.
+  intro H. eapply Forall_impl; [|exact H]. intros e He Hp. destruct (He Hp) as (q & Hq & Hne).
+  exists (i :: q). split; [|discriminate]. rewrite Hq. simpl. rewrite <- app_assoc. reflexivity.
+Qed.
+
+Lemma expands_struct f : expands f = true -> exists g gs, f = TStruct (g :: gs).
+Proof. destruct f as [| | | | |[|g gs]]; try discriminate. intros _. eauto. Qed.
+
+Section Fields.
+  Variable a : arch.
+  Hypothesis Ha : arch_ok a.
+  Variables (rp : list nat) (base A : Z).
+  Hypothesis HA : (A | base).
+
+  Lemma fields_inv fs :
+    Forall (fun f => wf_ty f -> expands f = true -> lay_inv a f) fs ->
+    Forall wf_ty fs -> Forall (fun f => (alignof std a f | A)) fs ->
+    forall i o pos, pos = base + o ->
+      let L := lay_fields std a rp base fs i o pos in
+      let hi := base + end_from o (map (sa std a) fs) in
+      tiles L pos hi
+      /\ Forall (leaf_wf A) L
+      /\ rfits L pos hi
+      /\ Forall2 leaf_rel (nonpad L) (gc_leaves_fields (fst a) (snd a) rp base fs i o)
+      /\ Forall (path_ok rp) L
+      /\ (fs <> [] -> L <> [] /\ (e_size (last L dummy) = 0 -> last_size (map (sa std a) fs) = 0))
+      /\ (fs <> [] -> (alignof std a (hd TPtr fs) | o) -> first_at L pos).
+  Proof.
+    intros HIH Hwf Hal. induction fs as [|f fs' IHfs].
+    - intros i o pos Hpos. simpl. repeat split; try constructor; try lia; try contradiction.
+    - inversion HIH as [|? ? Hf HIH']; subst. inversion Hwf as [|? ? Hwff Hwf']; subst.
+      inversion Hal as [|? ? Half Hal']; subst. intros i o pos Hpos.
+      pose proof (sa_ok a f Ha Hwff) as Hok. pose proof (sa_eq_gc a f Ha Hwff) as Hgc.
+      cbn [lay_fields gc_leaves_fields map end_from]. rewrite <- Hgc.
+      unfold alignof in Half. cbn [hd]. unfold alignof at 1.
+      destruct (sa std a f) as [sz al] eqn:Esa. cbv zeta.
+      destruct Hok as (Hsz & Hpw & _ & Hdv). simpl in Hsz, Hpw, Hdv, Half.
+      pose proof (pow2_pos _ Hpw) as Hpos_al.
+      rewrite <- (align_up_roundup o al Hpos_al).
+      pose proof (align_up_spec o al Hpos_al) as [[Hge _] Hdvo].
+      set (off := base + align_up o al) in *.
+      assert (Hpo : pos <= off) by (unfold off; lia).
+      assert (Hdoff : (al | off)).
+      { unfold off. apply Z.divide_add_r; [apply Z.divide_trans with A; [exact Half | exact HA] | exact Hdvo]. }
+      set (padl := if pos <? off then [mkpad pos off] else []).
+      set (pos1 := if pos <? off then off else pos).
+      assert (Hpos1 : pos1 = off).
+      { unfold pos1. destruct (pos <? off) eqn:E; [reflexivity|]. apply Z.ltb_ge in E. lia. }
+      assert (Hpadl : tiles padl pos off /\ nonpad padl = [] /\ Forall (leaf_wf A) padl /\ Forall (path_ok rp) padl
+                      /\ (forall l' hi', rfits l' off hi' -> rfits (padl ++ l') pos hi')).
+      { unfold padl. destruct (pos <? off) eqn:E.
+        - apply Z.ltb_lt in E. split; [apply tiles_pad; lia|]. split; [reflexivity|].
+          split; [constructor; [unfold leaf_wf; simpl; discriminate | constructor]|].
+          split; [constructor; [unfold path_ok; simpl; discriminate | constructor]|].
+          intros l' hi' Hrf. simpl. eapply rfits_weaken; [| |exact Hrf]; lia.
+        - apply Z.ltb_ge in E. assert (Hpe : pos = off) by lia. rewrite Hpe.
+          split; [simpl; lia|]. split; [reflexivity|]. split; [constructor|]. split; [constructor|].
+          intros l' hi' Hrf. exact Hrf. }
+      destruct Hpadl as (Hp1 & Hp2 & Hp3 & Hp4 & Hp5).
+      specialize (IHfs HIH' Hwf' Hal' (S i) (align_up o al + sz) (pos1 + sz) ltac:(rewrite Hpos1; unfold off; lia)).
+      cbv zeta in IHfs. rewrite Hpos1 in *.
+      replace (base + (align_up o al + sz)) with (off + sz) in IHfs by (unfold off; lia).
+      destruct IHfs as (I1 & I2 & I3 & I4 & I5 & I6 & I7).
+      set (rest := lay_fields std a rp base fs' (S i) (align_up o al + sz) (off + sz)) in *.
+      set (hi := base + end_from (align_up o al + sz) (map (sa std a) fs')) in *.
+      (* the field's own lines *)
+      set (here := if expands f then lay std a f (i :: rp) off
+                   else [mkE (rev (i :: rp)) off (off + sz) sz al false]).
+      assert (Hhere : tiles here off (off + sz) /\ here <> [] /\ (sz <> 0 -> e_size (last here dummy) <> 0)
+                      /\ Forall (leaf_wf A) here /\ rfits here off (off + sz)
+                      /\ Forall2 leaf_rel (nonpad here)
+                           (if expands f then gc_leaves (fst a) (snd a) f (i :: rp) off
+                            else [(rev (i :: rp), off, sz, al)])
+                      /\ first_at here off /\ Forall (path_ok rp) here).
+      { unfold here. destruct (expands f) eqn:Ex.
+        - specialize (Hf Hwff eq_refl (i :: rp) off). unfold alignof, sizeof in Hf. rewrite Esa in Hf. simpl in Hf.
+          destruct (Hf Hdoff) as (F1 & F2 & F3 & F4 & F5 & F6 & F7 & F8).
+          repeat split; auto.
+          + eapply leaf_wf_weaken; eauto.
+          + apply path_ok_cons with (i := i). exact F8.
+        - split; [simpl; repeat split; lia|]. split; [discriminate|]. split; [simpl; auto|].
+          split; [constructor; [|constructor]; intros _; simpl; repeat split; auto|].
+          split; [simpl; split; [lia|]; unfold rsize; simpl; rewrite align_up_mult by auto; lia|].
+          split; [unfold nonpad; simpl; constructor; [|constructor]; unfold leaf_rel; simpl; auto|].
+          split; [eexists; eexists; split; [reflexivity|]; simpl; auto|].
+          constructor; [|constructor]. intros _. simpl. exists [i]. split; [reflexivity | discriminate]. }
+      destruct Hhere as (H1 & H2 & H3 & H4 & H5 & H6 & H7 & H8).
+      split; [eapply tiles_app; [exact Hp1|]; eapply tiles_app; [exact H1 | exact I1]|].
+      split; [apply Forall_app; split; [exact Hp3|]; apply Forall_app; split; auto|].
+      split; [apply Hp5; eapply rfits_app; [exact H5 | exact I3]|].
+      split; [rewrite !nonpad_app, Hp2; simpl; apply Forall2_app; [exact H6 | exact I4]|].
+      split; [apply Forall_app; split; [exact Hp4|]; apply Forall_app; split; auto|].
+      split.
+      + intros _. split; [intro Hc; apply app_eq_nil in Hc as [_ Hc]; apply app_eq_nil in Hc as [Hc _]; contradiction|].
+        destruct fs' as [|f' fs''].
+        * simpl in rest. subst rest. rewrite app_nil_r. rewrite last_app_ne by exact H2.
+          unfold last_size. simpl. intro Hz. destruct (Z.eq_dec sz 0); [auto|]. exfalso. apply (H3 n). exact Hz.
+        * destruct (I6 ltac:(discriminate)) as [J1 J2].
+          rewrite app_assoc. rewrite last_app_ne by exact J1. intro Hz. specialize (J2 Hz).
+          unfold last_size in *. simpl map in *.
+          change (last (?x :: ?y :: ?l) (1, 1)) with (last (y :: l) (1, 1)). exact J2.
+      + intros _ Hdo. assert (Hoo : align_up o al = o) by (apply align_up_mult; auto).
+        assert (pos = off) by (unfold off; lia).
+        assert (Hnil : padl = []) by (unfold padl; destruct (pos <? off) eqn:E; [apply Z.ltb_lt in E; lia | reflexivity]).
+        rewrite Hnil. simpl. destruct H7 as (e & r & -> & Q1 & Q2). exists e, (r ++ rest).
+        split; [reflexivity|]. split; [exact Q1 | lia].
+  Qed.
+End Fields.
+
+Lemma tiles_last l lo hi :
+  tiles l lo hi -> l <> [] -> e_end (last l dummy) = hi /\ e_end (last l dummy) = e_start (last l dummy) + e_size (last l dummy).
+Proof.
+  revert lo. induction l as [|e r IH]; intros lo H Hne; [contradiction|].
+  destruct H as (A & B & C & D). destruct r as [|e' r'].
+  - simpl in *. lia.
+  - change (last (e :: e' :: r') dummy) with (last (e' :: r') dummy). eapply IH; [exact D | discriminate].
+Qed.
+
+Theorem lay_inv_all a : arch_ok a -> forall t, wf_ty t -> expands t = true -> lay_inv a t.
+Proof.
+  intro Ha. induction t as [k| | | |n e IH|fs IH] using ty_ind'; intros Hwf Hex; try discriminate.
+  destruct fs as [|g gs]; [discriminate|]. set (fs := g :: gs) in *.
+  intros rp base Hbase.
+  pose proof (fields_ok a fs Ha Hwf) as Hall.
+  destruct (struct_align_ok a _ Ha Hall) as (Hpw & _ & Hdivs).
+  destruct (struct_size_ok a _ Ha Hall) as (Hend & Hdsz & Hsz0).
+  set (sas := map (sa std a) fs) in *.
+  assert (HA : alignof std a (TStruct fs) = struct_align sas) by reflexivity.
+  assert (HS : sizeof std a (TStruct fs) = struct_size sas) by reflexivity.
+  rewrite HA in Hbase. cbv zeta. rewrite HA, HS. rewrite lay_struct.
+  change (fst (sa std a (TStruct fs))) with (struct_size sas).
+  pose proof (pow2_pos _ Hpw) as Hpos.
+  assert (Hal : Forall (fun f => (alignof std a f | struct_align sas)) fs).
+  { unfold sas in Hdivs. rewrite Forall_map in Hdivs. exact Hdivs. }
+  apply wf_struct in Hwf.
+  destruct (fields_inv a Ha rp base (struct_align sas) Hbase fs IH Hwf Hal 0%nat 0 base ltac:(lia))
+    as (F1 & F2 & F3 & F4 & F5 & F6 & F7).
+  fold sas in F1, F3, F6. set (L0 := lay_fields std a rp base fs 0 0 base) in *.
+  destruct (F6 ltac:(discriminate)) as [Hne Hlast].
+  set (nz := negb (struct_size sas =? 0)).
+  set (endz := base + struct_size sas).
+  (* the fudge has room *)
+  assert (Hroom : e_size (last L0 dummy) = 0 -> nz = true -> base + end_from 0 sas + 1 <= endz).
+  { intros Hz Hnz. specialize (Hlast Hz). unfold nz in Hnz. apply negb_true_iff, Z.eqb_neq in Hnz.
+    unfold endz. unfold struct_size in *. unfold sas, fs in *. cbn [map] in *. cbv zeta in *.
+    rewrite Hlast in *. simpl (0 =? 0) in *. cbn [andb] in *.
+    destruct (end_from 0 _ =? 0) eqn:E; cbn [negb] in *.
+    - apply Z.eqb_eq in E. rewrite E in Hnz. exfalso. apply Hnz. apply align_up_mult; [exact Hpos | apply Z.divide_0_r].
+    - pose proof (align_up_ge (end_from 0 (sa std a g :: map (sa std a) gs) + 1) _ Hpos). lia. }
+  assert (Hple : base + end_from 0 sas <= endz) by (unfold endz; lia).
+  assert (Hdend : (struct_align sas | endz)) by (unfold endz; apply Z.divide_add_r; auto).
+  split; [apply finish_tiles with (p := base + end_from 0 sas); auto|].
+  destruct (finish_last L0 nz endz Hne) as [Hne' Hlast'].
+  split; [exact Hne'|].
+  split; [intro Hs; apply Hlast'; unfold nz; apply negb_true_iff, Z.eqb_neq; exact Hs|].
+  split; [apply finish_leaf_wf; exact F2|].
+  split.
+  { eapply finish_rfits; eauto.
+    intros e He Hz Hnz. subst e. specialize (Hroom Hz Hnz).
+    destruct (tiles_last _ _ _ F1 Hne) as [T1 T2]. lia. }
+  split; [rewrite gc_leaves_struct; apply finish_leaf_rel; exact F4|].
+  split; [apply finish_first; apply F7; [discriminate | apply Z.divide_0_r]|].
+  apply finish_path_ok; exact F5.
+Qed.
+
+(* ---------------------------------------------------------------------------------------------- layout_tiles *)
+Lemma layout_nil a : layout std a (TStruct []) = [].
+Proof. reflexivity. Qed.
+
+Theorem layout_tiles_std a fs :
+  arch_ok a -> wf_ty (TStruct fs) ->
+  let t := TStruct fs in
+  tiles (layout std a t) 0 (gc_sizeof a t)
+  /\ Forall2 leaf_rel (nonpad (layout std a t)) (gc_leaves (fst a) (snd a) t [] 0).
+Proof.
+  intros Ha Hwf t. destruct (gcsizes_eq_gc_std a t Ha Hwf) as (Hs & _ & _). rewrite <- Hs.
+  destruct fs as [|g gs].
+  - unfold t. rewrite layout_nil. split; [reflexivity | constructor].
+  - destruct (lay_inv_all a Ha t Hwf eq_refl [] 0 (Z.divide_0_r _)) as (H1 & _ & _ & _ & _ & H6 & _).
+    split; [exact H1 | exact H6].
+Qed.
